@@ -1,6 +1,6 @@
 (* C05 — one slot per requested label; fill_value and min_count honoured exactly. *)
 From Coq Require Import ZArith String List Bool Sorted.
-From Flox Require Import ListX Val Agg Spec Pipeline PipelineLaw Registry Factorize FactorizeLaw C05Proofs.
+From Flox Require Import ListX Val Agg Spec Pipeline PipelineLaw Registry Factorize FactorizeLaw C05Proofs Reindex ReindexLaw.
 Import ListNotations.
 Open Scope Z_scope.
 
@@ -48,7 +48,25 @@ Theorem C05_mask_exact_in_every_plan :
       else Some (eval_finalizer (a_finalize a) (tuple_of chs (tree_vals g t)) kws).
 Proof. exact mask_exact. Qed.
 
+(* the reindexing step that puts block / cohort results (labels [from_] in whatever order they were met) into the requested slots
+   [to]: one slot per requested label in the requested order; the slot of a label that was met holds that label's value, the
+   slot of a label that was not met holds the fill; reindexing to the same labels is the identity (reindex_'s shortcut).
+   K2: exhaustive correspondence with flox.core.reindex_ over every ordered from_ and to (Index and RangeIndex) *)
+Theorem C05_reindex_one_slot_per_requested_label :
+  forall (from_ to : list Z) (fill : Z) vals j l,
+    NoDup from_ -> length vals = length from_ -> nth_error to j = Some l ->
+    length (reindex from_ to fill vals) = length to /\
+    (forall i, nth_error from_ i = Some l -> nth j (reindex from_ to fill vals) fill = nth i vals fill) /\
+    (~ In l from_ -> nth j (reindex from_ to fill vals) fill = fill).
+Proof. exact C05Proofs.reindex_one_slot. Qed.
+
+Theorem C05_reindex_to_the_same_labels_is_identity :
+  forall (from_ : list Z) (vals : list Z) fill, NoDup from_ -> length vals = length from_ -> reindex from_ from_ fill vals = vals.
+Proof. exact (@reindex_same Z). Qed.
+
 Print Assumptions C05_one_slot_per_label.
+Print Assumptions C05_reindex_one_slot_per_requested_label.
+Print Assumptions C05_reindex_to_the_same_labels_is_identity.
 Print Assumptions C05_labels_are_those_requested.
 Print Assumptions C05_slot_members.
 Print Assumptions C05_missing_and_unrequested_dropped.
